@@ -52,6 +52,8 @@ type Params struct {
 	Sync            int // 0 async producer, 1 SyncProducer.SendMessage per message, 2 one SendMessages call
 	Codec           sarama.CompressionCodec
 	KV              bool // keys and headers on some messages (see KeyOf / HeadersOf)
+	EmptyVal        int  // >0: message number EmptyVal (1-based) has an EMPTY, non-nil value (not a tombstone); its id travels in the key
+	Reuse           bool // reuse=1: the application keeps its message values in a pool: a value handed back on Successes()/Errors() is filled in again and submitted as the next message
 	OldHdr          bool // oldhdr=1: headers also under a message format that cannot carry them (the producer must refuse such a message)
 }
 
@@ -89,6 +91,8 @@ func Parse(v url.Values) (*Params, error) {
 	}
 	p.KV = atoi(v, "kv", 0) == 1
 	p.OldHdr = atoi(v, "oldhdr", 0) == 1
+	p.Reuse = atoi(v, "reuse", 0) == 1
+	p.EmptyVal = atoi(v, "emptyval", 0)
 	ver := v.Get("ver")
 	if ver == "" {
 		ver = "2.1.0"
@@ -202,8 +206,9 @@ type rig struct {
 	stopReaders   chan struct{}
 	readers       sync.WaitGroup
 	closeReturned bool
-	subAt         []int // subAt[i]: len(events) at the moment message i was submitted
-	election      int   // 0 not started, 1 partition 0 leaderless, 2 over
+	subAt         []int                     // subAt[i]: len(events) at the moment message i was submitted
+	pool          []*sarama.ProducerMessage // reuse=1: values the producer handed back
+	election      int                       // 0 not started, 1 partition 0 leaderless, 2 over
 	oldLeader     int32
 	submitted     int
 	accepted      int
@@ -335,6 +340,9 @@ func run(c *gx.Ctl, p *Params) *gx.Outcome {
 					id, _ := m.Metadata.(string)
 					r.mu.Lock()
 					r.events = append(r.events, event{id: id, ok: true, part: m.Partition, off: m.Offset, hdrs: m.Headers})
+					if p.Reuse {
+						r.pool = append(r.pool, m)
+					}
 					r.mu.Unlock()
 				case <-r.stopReaders: // sclose=1: Close() takes over both channels
 					return
@@ -355,6 +363,9 @@ func run(c *gx.Ctl, p *Params) *gx.Outcome {
 					id, _ := e.Msg.Metadata.(string)
 					r.mu.Lock()
 					r.events = append(r.events, event{id: id, ok: false, part: e.Msg.Partition, err: e.Err.Error()})
+					if p.Reuse {
+						r.pool = append(r.pool, e.Msg)
+					}
 					r.mu.Unlock()
 				case <-r.stopReaders:
 					return
@@ -427,14 +438,25 @@ func (r *rig) actors() []gx.Actor {
 				r.mu.Lock()
 				r.submitted++
 				r.subAt = append(r.subAt, len(r.events)) // how many terminal events had been delivered when message i was submitted
+				var msg *sarama.ProducerMessage
+				if n := len(r.pool); p.Reuse && n > 0 {
+					msg, r.pool = r.pool[n-1], r.pool[:n-1]
+				}
 				r.mu.Unlock()
 				id := msgID(i)
-				msg := &sarama.ProducerMessage{Topic: "t", Partition: p.Parts[i], Value: sarama.StringEncoder(id), Metadata: id}
+				if msg == nil {
+					msg = &sarama.ProducerMessage{}
+				}
+				// every field the application owns is (re)written; what the producer keeps inside the value is its own business
+				msg.Topic, msg.Partition, msg.Value, msg.Metadata, msg.Key, msg.Offset = "t", p.Parts[i], sarama.StringEncoder(id), id, nil, 0
 				if p.Pad > len(id)+1 {
 					msg.Value = sarama.StringEncoder(id + "|" + strings.Repeat("x", p.Pad-len(id)-1))
 				}
 				if p.Tomb == i+1 {
 					msg.Value = nil // a tombstone (Encoder interface left nil)
+				}
+				if p.EmptyVal == i+1 {
+					msg.Value = sarama.ByteEncoder([]byte{}) // an empty value is a value: it must not arrive as null (a tombstone)
 				}
 				if p.BadEnc == i+1 {
 					msg.Value = failingEncoder{} // cannot be encoded: the message must end with an error, the others are not affected
@@ -627,7 +649,7 @@ func indexOf(l []*sarama.ProducerMessage, m *sarama.ProducerMessage) (int, bool)
 // KeyOf / HeadersOf: the key and headers message i is submitted with (kv=1: odd messages carry a
 // key - every fourth an empty one -, every third message headers when the format has them).
 func (p *Params) KeyOf(i int) []byte {
-	if p.Tomb == i+1 {
+	if p.Tomb == i+1 || p.EmptyVal == i+1 {
 		return []byte(msgID(i))
 	}
 	if !p.KV || i%2 == 0 {
